@@ -113,7 +113,7 @@ func VerifC17_coherence() {
 	}
 	foreignOp := ndString("foreignOperator")
 	mutated := true
-	switch ndPick("mutation", 6) {
+	switch ndPick("mutation", 7) {
 	case 0: // register an address nobody signed for
 		tx.OpAndEVMAddrs.OperatorAddresses = append(tx.OpAndEVMAddrs.OperatorAddresses, foreignOp)
 		tx.OpAndEVMAddrs.EVMAddresses = append(tx.OpAndEVMAddrs.EVMAddresses, "00000000000000000000000000000000000000aa")
@@ -145,6 +145,13 @@ func VerifC17_coherence() {
 		} else {
 			ndAssume(foreignOp != tx.OracleAttestations.OperatorAddresses[0])
 			tx.OracleAttestations.OperatorAddresses[0] = foreignOp
+		}
+	case 5: // entries that are empty strings where the commit has none (text-equal to nothing when joined)
+		if len(tx.ValsetSigs.OperatorAddresses) != 0 {
+			mutated = false
+		} else {
+			tx.ValsetSigs.OperatorAddresses = []string{""}
+			tx.ValsetSigs.Signatures = []string{""}
 		}
 	default: // an attestation invented
 		tx.OracleAttestations.OperatorAddresses = append(tx.OracleAttestations.OperatorAddresses, foreignOp)
